@@ -1,4 +1,614 @@
 import LenaModel.Model.C02
-/-! # C02 — property theorems (laziness) -/
+import LenaModel.Lemmas.C02
+import LenaModel.Lemmas.C02Neg
+import LenaModel.Lemmas.C02Split
+import LenaModel.Lemmas.C02Spec
+/-! # C02 — property theorems: evaluation is lazy
+
+The model (`Model/C02.lean`) runs pipelines of generators with explicit state over an instrumented
+source whose clock counts every resumption.  The theorems below say, for ALL pipelines of the
+streaming elements, all inputs and all consumer stop points `k`:
+
+* building a pipeline and calling `run` pulls nothing                        (`build_is_silent`);
+* a consumer that takes `k` results gets exactly the first `k` values of the *stamped flow*
+  `seqSpec els (SF.ofList xs)` and has then caused exactly `need k` pulls     (`pipeline_lazy`),
+  where the stamped flow is the composition of the stage functions            (`compose_pulls`);
+* what the stage functions say about pulls: a map pulls as often as it yields, a filter pulls up to
+  the k-th selected value, `islice` up to index `start + k·step` and never beyond `max start stop`,
+  `Count` one value ahead, a negative stop lags by `|stop|`
+  (`map_pulls`, `filter_pulls`, `islice_pulls`, `islice_end`, `count_lookahead`, `negslice_lag`);
+* over an infinite input `Slice(n)` terminates after exactly `n` pulls        (`slice_after_infinite_terminates`);
+* `Split` hands every result of a block downstream at the clock at which the block was complete
+  (before it pulls again) and never buffers more than `bufsize` values        (`split_block_bound`, `split_buffer_bound`);
+* a negative `Slice` never holds more than `|index|` values                   (`negslice_held_bound`). -/
+
 namespace Lena.C02
+
+variable {α : Type}
+
+/-! ## well-formed stages and sufficient fuel -/
+
+/-- what the constructors guarantee: `islice` rejects `step < 1`; `Slice.__init__` routes to
+`_run_negative_islice` only with a negative index and `step ≥ 1`; `Split.__init__` rejects
+`bufsize < 1` -/
+def Stage.WF : Stage α → Prop
+  | .islice _ _ st => 1 ≤ st
+  | .negslice a b st => NegArgs a b ∧ 1 ≤ st
+  | .split _ _ bufsize _ => GoodBufsize bufsize
+  | _ => True
+
+/-- fuel that suffices for a stage whose input is the stamped flow `sf`: linear in its length -/
+def Stage.fuelOK (st : Stage α) (sf : SF α) (fu : Nat) : Prop :=
+  4 * sf.vals.length + 5 < fu ∧
+  match st with
+  | .negslice a b _ => (negSpec a b sf).vals.length < fu
+  | _ => True
+
+theorem SF.eta' (sf : SF α) (c : Nat) (h : sf.c0 = c) : (⟨c, sf.vals, sf.cf⟩ : SF α) = sf := by
+  subst h
+  rfl
+
+theorem Stage.run_negslice_one (a b : Option Int) (p : Pipe α) :
+    (Stage.negslice a b 1).run p
+      = { σ := p.σ × NSt α, gen := negG a b p.gen, st := (p.st, .init), clock := fun s => p.clock s.1 } := by
+  simp [Stage.run]
+
+theorem Stage.run_negslice_step (a b : Option Int) (st : Nat) (h : st ≠ 1) (p : Pipe α) :
+    (Stage.negslice a b st).run p
+      = { σ := (p.σ × NSt α) × ISt, gen := isliceG none st (negG a b p.gen), st := ((p.st, .init), isliceInit 0),
+          clock := fun s => p.clock s.1.1 } := by
+  simp [Stage.run, h]
+
+theorem Stage.run_split_empty (σb : Type) (brs : List (Lena.C03.Branch σb α)) (bufsize : Option Nat)
+    (copyBuf : Bool) (h : brs.isEmpty = true) (p : Pipe α) :
+    (Stage.split σb brs bufsize copyBuf).run p = { σ := p.σ, gen := mapG id p.gen, st := p.st, clock := p.clock } := by
+  simp [Stage.run, h]
+
+theorem Stage.run_split_nonempty (σb : Type) (brs : List (Lena.C03.Branch σb α)) (bufsize : Option Nat)
+    (copyBuf : Bool) (h : ¬ brs.isEmpty = true) (p : Pipe α) :
+    (Stage.split σb brs bufsize copyBuf).run p
+      = { σ := p.σ × SSt σb α, gen := splitG bufsize copyBuf p.gen, st := (p.st, splitInit brs),
+          clock := fun s => p.clock s.1 } := by
+  simp [Stage.run, h]
+
+/-- **Stage theorem.**  Every streaming element, run on an iterator that produces `vals` and ends at
+clock `cf`, produces the stamped flow given by its specification function; building it pulls nothing. -/
+theorem stage_produces (st : Stage α) (hwf : st.WF) (p : Pipe α) (fu : Nat) {vals : List (α × Nat)} {cf : Nat}
+    (h : Produces p.gen p.clock fu p.st vals cf) (hfu : st.fuelOK ⟨p.now, vals, cf⟩ fu) :
+    Produces (st.run p).gen (st.run p).clock fu (st.run p).st
+      (st.spec ⟨p.now, vals, cf⟩).vals (st.spec ⟨p.now, vals, cf⟩).cf ∧
+    (st.run p).now = p.now ∧ (st.spec ⟨p.now, vals, cf⟩).c0 = p.now := by
+  obtain ⟨hfu1, hfu2⟩ := hfu
+  replace hfu1 : 4 * vals.length + 5 < fu := hfu1
+  cases st with
+  | map f => exact ⟨map_feeds f p.gen p.clock fu h, rfl, rfl⟩
+  | filter q => exact ⟨filter_produces q p.gen p.clock fu h (show vals.length < fu by omega), rfl, rfl⟩
+  | islice a b st =>
+    exact ⟨islice_produces a b st hwf p.gen p.clock fu h (show vals.length < fu by omega), rfl, rfl⟩
+  | negslice a b st =>
+    obtain ⟨hargs, hst⟩ := hwf
+    have hneg := neg_produces p.gen p.clock fu a b hargs h (show vals.length + 4 < fu by omega)
+    have hc0 : (negSpec a b ⟨p.now, vals, cf⟩).c0 = p.now := by
+      simp only [negSpec]
+      repeat' split
+      all_goals rfl
+    by_cases h1 : st = 1
+    · subst h1
+      rw [Stage.run_negslice_one]
+      simp only [Stage.spec, negSliceSpec, if_true]
+      exact ⟨hneg, rfl, hc0⟩
+    · rw [Stage.run_negslice_step a b st h1]
+      simp only [Stage.spec, negSliceSpec, h1, if_false]
+      have := islice_produces 0 none st hst (negG a b p.gen) (fun t => p.clock t.1) fu hneg hfu2
+      have e := SF.eta' (negSpec a b ⟨p.now, vals, cf⟩) p.now hc0
+      refine ⟨?_, rfl, ?_⟩
+      · have hc : p.clock (p.st, (NSt.init : NSt α)).1 = p.now := rfl
+        simp only [hc] at this
+        rw [e] at this
+        exact this
+      · exact hc0
+  | count mark => exact ⟨count_produces mark p.gen p.clock fu h (show 2 ≤ fu by omega), rfl, rfl⟩
+  | runIf sel inner => exact ⟨runIf_produces sel inner p.gen p.clock fu h (show vals.length < fu by omega), rfl, rfl⟩
+  | split σb brs bufsize copyBuf =>
+    by_cases he : brs.isEmpty = true
+    · rw [Stage.run_split_empty σb brs bufsize copyBuf he]
+      simp only [Stage.spec, if_pos he]
+      exact ⟨map_feeds id p.gen p.clock fu h, rfl, rfl⟩
+    · rw [Stage.run_split_nonempty σb brs bufsize copyBuf he]
+      simp only [Stage.spec, if_neg he]
+      exact ⟨split_produces bufsize copyBuf p.gen p.clock fu hwf brs h hfu1, rfl, rfl⟩
+
+/-! ## `Sequence.run` -/
+
+/-- **`build_is_silent`** — constructing a pipeline and calling `run` produces no pull: the clock of
+the source is what it was.  (`Sequence.run` only chains `el.run(flow)`; no `next` is applied.) -/
+theorem build_is_silent (els : List (Stage α)) (p : Pipe α) : (seqRun els p).now = p.now := by
+  induction els generalizing p with
+  | nil => rfl
+  | cons e es ih =>
+    have he : (e.run p).now = p.now := by
+      cases e with
+      | negslice a b st => simp only [Stage.run]; split <;> rfl
+      | split σb brs bufsize copyBuf => simp only [Stage.run]; split <;> rfl
+      | _ => rfl
+    show (seqRun es (e.run p)).now = p.now
+    rw [ih, he]
+
+example : (seqRun [Stage.filter (fun n : Nat => n % 2 == 0), .islice 0 (some 2) 1, .count (fun _ v => v)]
+    (Pipe.ofList [1, 2, 3, 4])).now = 0 := by decide
+
+/-- fuel that suffices for a whole pipeline: at every stage linear in the length of that stage's input -/
+def seqFuelOK : List (Stage α) → SF α → Nat → Prop
+  | [], _, _ => True
+  | e :: es, sf, fu => e.fuelOK sf fu ∧ seqFuelOK es (e.spec sf) fu
+
+/-- **`compose_pulls`** — for a chain of stages the stamped flow (values, the pull count at which each
+is handed over, the pull count at the end) is the composition of the stage functions: demand is
+propagated stage by stage, no stage reads ahead of what its specification says. -/
+theorem compose_pulls (els : List (Stage α)) (hwf : ∀ e ∈ els, e.WF) (p : Pipe α) (fu : Nat)
+    {vals : List (α × Nat)} {cf : Nat} (h : Produces p.gen p.clock fu p.st vals cf)
+    (hfu : seqFuelOK els ⟨p.now, vals, cf⟩ fu) :
+    Produces (seqRun els p).gen (seqRun els p).clock fu (seqRun els p).st
+      (seqSpec els ⟨p.now, vals, cf⟩).vals (seqSpec els ⟨p.now, vals, cf⟩).cf ∧
+    (seqSpec els ⟨p.now, vals, cf⟩).c0 = p.now := by
+  induction els generalizing p vals cf with
+  | nil => exact ⟨h, rfl⟩
+  | cons e es ih =>
+    obtain ⟨hfu1, hfu2⟩ := hfu
+    obtain ⟨h1, h2, h3⟩ := stage_produces e (hwf e (by simp)) p fu h hfu1
+    have hsf : e.spec ⟨p.now, vals, cf⟩
+        = ⟨(e.run p).now, (e.spec ⟨p.now, vals, cf⟩).vals, (e.spec ⟨p.now, vals, cf⟩).cf⟩ :=
+      (SF.eta' _ _ (h3.trans h2.symm)).symm
+    rw [hsf] at hfu2
+    have := ih (fun e' he' => hwf e' (by simp [he'])) (e.run p) h1 hfu2
+    rw [← hsf] at this
+    refine ⟨this.1, ?_⟩
+    show (seqSpec es (e.spec ⟨p.now, vals, cf⟩)).c0 = p.now
+    rw [this.2, h2]
+
+/-- fuel exists: some `fu` suffices for any pipeline on any finite input -/
+theorem seqFuelOK_exists (els : List (Stage α)) (sf : SF α) : ∃ fu, ∀ fu', fu ≤ fu' → seqFuelOK els sf fu' := by
+  induction els generalizing sf with
+  | nil => exact ⟨0, fun _ _ => trivial⟩
+  | cons e es ih =>
+    obtain ⟨f1, h1⟩ := ih (e.spec sf)
+    have hstage : ∃ f0, ∀ fu', f0 ≤ fu' → e.fuelOK sf fu' := by
+      cases e with
+      | negslice a b st =>
+        exact ⟨4 * sf.vals.length + 6 + (negSpec a b sf).vals.length, fun fu' hfu' => ⟨by omega, by
+          show (negSpec a b sf).vals.length < fu'
+          omega⟩⟩
+      | _ => exact ⟨4 * sf.vals.length + 6, fun fu' hfu' => ⟨by omega, trivial⟩⟩
+    obtain ⟨f0, h0⟩ := hstage
+    exact ⟨max f0 f1, fun fu' hfu' => ⟨h0 fu' (by omega), h1 fu' (by omega)⟩⟩
+
+/-- **`pipeline_lazy`** — the property's main sentence.  For every pipeline of well-formed streaming
+elements, every finite input `xs` and every number `k` of results the consumer takes before it stops:
+the consumer receives the first `k` values of the stamped flow `seqSpec els (SF.ofList xs)`, each at
+the pull count the specification gives, and at the moment it stops the source has been pulled exactly
+`need k` times — the stamp of the `k`-th result (nothing for `k = 0`), or the end clock if the
+pipeline has fewer than `k` results.  No fuel is exhausted and no exception is raised. -/
+theorem pipeline_lazy (els : List (Stage α)) (hwf : ∀ e ∈ els, e.WF) (xs : List α) (fu : Nat)
+    (hfu : seqFuelOK els (SF.ofList xs) fu) (k : Nat) :
+    (seqRun els (Pipe.ofList xs)).take fu k =
+      ((seqSpec els (SF.ofList xs)).vals.take k,
+       if k ≤ (seqSpec els (SF.ofList xs)).vals.length then Ending.stoppedByConsumer else Ending.exhausted,
+       (seqSpec els (SF.ofList xs)).need k) := by
+  have hsrc := listSrc_produces (α := α) fu xs 0
+  have hsf : SF.ofList xs = ⟨(Pipe.ofList xs).now, stamps xs 0, 0 + xs.length + 1⟩ := by
+    simp [SF.ofList, Pipe.ofList, Pipe.now]
+  rw [hsf] at hfu ⊢
+  obtain ⟨h1, h2⟩ := compose_pulls els hwf (Pipe.ofList xs) fu hsrc hfu
+  have := take_produces _ _ fu h1 k
+  unfold Pipe.take
+  rw [this]
+  have hnow : (seqRun els (Pipe.ofList xs)).clock (seqRun els (Pipe.ofList xs)).st = (Pipe.ofList xs).now :=
+    build_is_silent els (Pipe.ofList xs)
+  rw [hnow, SF.eta' _ _ h2]
+
+/-- hypotheses of `pipeline_lazy` are satisfiable: a concrete pipeline, its fuel, and what the theorem
+then says — `Filter(even), Slice(2), Count` over `1..6`: both results come after 4 pulls (`Slice(2)` stops
+pulling at its second value and reports its end without another pull, which is what `Count` waits for) -/
+example : ∀ e ∈ [Stage.filter (fun n : Nat => n % 2 == 0), .islice 0 (some 2) 1, .count (fun c v => v + 100 * c)],
+    e.WF := by
+  intro e he
+  simp only [List.mem_cons, List.not_mem_nil, or_false] at he
+  rcases he with rfl | rfl | rfl <;> simp [Stage.WF]
+
+example : seqFuelOK [Stage.filter (fun n : Nat => n % 2 == 0), .islice 0 (some 2) 1, .count (fun c v => v + 100 * c)]
+    (SF.ofList [1, 2, 3, 4, 5, 6]) 40 := by
+  simp [seqFuelOK, Stage.fuelOK, Stage.spec, filterSpec, isliceSpec, SF.ofList, stamps, Lena.C17.islice,
+    Lena.C17.isliceGo]
+
+example : (seqRun [Stage.filter (fun n : Nat => n % 2 == 0), .islice 0 (some 2) 1, .count (fun c v => v + 100 * c)]
+    (Pipe.ofList [1, 2, 3, 4, 5, 6])).take 40 5 = ([(2, 4), (204, 4)], Ending.exhausted, 4) := by decide
+
+example : (seqRun [Stage.negslice none (some (-2)) 1] (Pipe.ofList [10, 11, 12, 13, 14])).take 40 2
+    = ([(10, 3), (11, 4)], Ending.stoppedByConsumer, 4) := by decide
+
+/-! ## infinite inputs -/
+
+theorem fnStamps_getElem? (f : Nat → α) : ∀ (m c i : Nat),
+    (fnStamps f c m)[i]? = if i < m then some (f (c + i), c + i + 1) else none
+  | 0, c, i => by simp [fnStamps]
+  | m + 1, c, 0 => by simp [fnStamps]
+  | m + 1, c, i + 1 => by
+    simp only [fnStamps, List.getElem?_cons_succ, fnStamps_getElem? f m (c + 1) i, Nat.add_lt_add_iff_right]
+    have e : c + 1 + i = c + (i + 1) := by omega
+    rw [e]
+
+/-- callables over an iterator that feeds `vals` feed the transformed values at the same stamps -/
+theorem maps_feeds (gs : List (α → α)) (p : Pipe α) (fu : Nat) {vals : List (α × Nat)} {e : Option Nat}
+    (h : Feeds p.gen p.clock fu p.st vals e) :
+    Feeds (seqRun (gs.map Stage.map) p).gen (seqRun (gs.map Stage.map) p).clock fu (seqRun (gs.map Stage.map) p).st
+      (vals.map (fun q => (gs.foldl (fun a g => g a) q.1, q.2))) e := by
+  induction gs generalizing p vals with
+  | nil =>
+    have e : vals.map (fun q => (([] : List (α → α)).foldl (fun a g => g a) q.1, q.2)) = vals := by simp
+    rw [e]
+    exact h
+  | cons g gs ih =>
+    have h1 := map_feeds g p.gen p.clock fu h
+    have := ih ((Stage.map g).run p) h1
+    have e : vals.map (fun q => ((g :: gs).foldl (fun a g => g a) q.1, q.2))
+        = (vals.map (fun p => (g p.1, p.2))).map (fun q => (gs.foldl (fun a g => g a) q.1, q.2)) := by
+      simp [List.map_map, Function.comp_def]
+    rw [e]
+    exact this
+
+/-- the need function of the first `n` values of the infinite input (clock started at 0) -/
+theorem need_fnStamps (f : Nat → α) (g : α → α) (n cf k : Nat) (hk : k ≤ n) :
+    (SF.mk 0 ((fnStamps f 0 n).map (fun q => (g q.1, q.2))) cf).need k = k := by
+  cases k with
+  | zero => rfl
+  | succ k =>
+    simp only [SF.need, List.getElem?_map, fnStamps_getElem?]
+    have : k < n := by omega
+    simp [this]
+
+/-- **`slice_after_infinite_terminates`** — `Source(infinite, f₁, …, f_m, Slice(n))`: for every number `k`
+of results the consumer asks for, it receives the first `min k n` values (value `i` after exactly
+`i + 1` pulls), the iteration *ends* (no fuel exhaustion: `n < fu` suffices, whatever the input) and the
+infinite input has been pulled exactly `min k n` times — `n` times when the consumer drains the pipeline. -/
+theorem slice_after_infinite_terminates (f : Nat → α) (gs : List (α → α)) (n fu k : Nat) (hfu : n < fu) :
+    ((Stage.islice 0 (some n) 1).run (seqRun (gs.map Stage.map) (Pipe.ofFn f))).take fu k
+      = (((fnStamps f 0 n).map (fun q => (gs.foldl (fun a g => g a) q.1, q.2))).take k,
+         if k ≤ n then Ending.stoppedByConsumer else Ending.exhausted, min k n) := by
+  have h0 := fnSrc_feeds f fu n 0
+  have h1 := maps_feeds gs (Pipe.ofFn f) fu h0
+  have hnow : (seqRun (gs.map Stage.map) (Pipe.ofFn f)).now = 0 := build_is_silent _ _
+  have hlen : ((fnStamps f 0 n).map (fun q => (gs.foldl (fun a g => g a) q.1, q.2))).length = n := by simp
+  have h2 := islice_feeds (some n) 1 (Nat.le_refl 1) _ _ fu h1 0
+    (by intro _; exact ⟨n, rfl, by simp [isliceInit, hlen]⟩) (by rw [hlen]; exact hfu)
+  have hvals : Lena.C17.islice ((fnStamps f 0 n).map (fun q => (gs.foldl (fun a g => g a) q.1, q.2))) 0 (some n) 1
+      = (fnStamps f 0 n).map (fun q => (gs.foldl (fun a g => g a) q.1, q.2)) := by
+    rw [islice_eq_everyNth _ _ _ _ (Nat.le_refl 1), Lena.C17.everyNth_one]
+    simp only [Lena.C17.takeOpt, List.drop_zero, Nat.sub_zero]
+    exact List.take_of_length_le (by rw [hlen]; exact Nat.le_refl n)
+  rw [hvals] at h2
+  have hnow' : (seqRun (gs.map Stage.map) (Pipe.ofFn f)).clock (seqRun (gs.map Stage.map) (Pipe.ofFn f)).st = 0 := hnow
+  have hend : isliceEnd (some n) (isliceInit 0)
+      ⟨(seqRun (gs.map Stage.map) (Pipe.ofFn f)).clock (seqRun (gs.map Stage.map) (Pipe.ofFn f)).st,
+        (fnStamps f 0 n).map (fun q => (gs.foldl (fun a g => g a) q.1, q.2)), (none : Option Nat).getD 0⟩ = n := by
+    simp only [isliceEnd, isliceInit, Nat.zero_max, Nat.sub_zero, hnow']
+    exact need_fnStamps f (fun a => gs.foldl (fun a g => g a) a) n _ n (Nat.le_refl n)
+  rw [hend] at h2
+  have := take_produces _ _ fu h2 k
+  show takeG _ _ fu k _ = _
+  simp only [Stage.run] at this ⊢
+  rw [this, hlen]
+  congr 2
+  simp only [hnow']
+  by_cases hk : k ≤ n
+  · have := need_fnStamps f (fun a => gs.foldl (fun a g => g a) a) n n k hk
+    rw [show (SF.mk 0 ((fnStamps f 0 n).map (fun q => (gs.foldl (fun a g => g a) q.1, q.2))) n).need k = k from this]
+    omega
+  · obtain ⟨j, rfl⟩ : ∃ j, k = j + 1 := ⟨k - 1, by omega⟩
+    rw [need_of_ge _ _ (by simp; omega)]
+    simp only
+    omega
+
+example : ((Stage.islice 0 (some 3) 1).run (seqRun ([fun x => x * 10].map Stage.map) (Pipe.ofFn (fun i => i)))).take 4 7
+    = ([(0, 1), (10, 2), (20, 3)], Ending.exhausted, 3) := by decide
+
+/-! ## bounded buffering -/
+
+section buffers
+variable {σ : Type}
+
+/-- the state a loop iteration leads to (none if it runs out of fuel or raises) -/
+def Step.state? {β : Type} : Step σ β → Option σ
+  | .yield _ s => some s
+  | .stop s => some s
+  | .cont s => some s
+  | .fuel => none
+  | .error _ => none
+
+/-- every state a generator body can be in: reached from `s` by any number of loop iterations
+(within one `next` call or across any number of them, whatever the consumer does) -/
+inductive StepReach {β : Type} (step : σ → Step σ β) : σ → σ → Prop
+  | refl (s : σ) : StepReach step s s
+  | tail {s t t' : σ} : StepReach step s t → (step t).state? = some t' → StepReach step s t'
+
+theorem stepReach_invariant {β : Type} (step : σ → Step σ β) (I : σ → Prop)
+    (hstep : ∀ t t', I t → (step t).state? = some t' → I t') {s t : σ} (hs : I s) (h : StepReach step s t) :
+    I t := by
+  induction h with
+  | refl => exact hs
+  | tail _ h2 ih => exact hstep _ _ ih h2
+
+/-- **`split_buffer_bound`** — `Split(…, bufsize=b)` never holds more than `b` unprocessed input values:
+in every state `Split.run` can reach, `orig_buf` has at most `b` values (and it is emptied when the
+block has been given to the branches). -/
+theorem split_buffer_bound {σb : Type} (b : Nat) (copyBuf : Bool) (up : Gen σ α) (fu : Nat)
+    (brs : List (Lena.C03.Branch σb α)) (s : σ) (t : σ × SSt σb α)
+    (h : StepReach (splitStep (some b) copyBuf up fu) (s, splitInit brs) t) : t.2.buf.length ≤ b := by
+  refine stepReach_invariant _ (fun t => t.2.buf.length ≤ b) ?_ (by simp [splitInit]) h
+  rintro ⟨s1, l⟩ t' hI ht
+  simp only at hI
+  simp only [splitStep] at ht
+  cases hph : l.phase with
+  | reading =>
+    rw [hph] at ht
+    simp only [blockFull] at ht
+    by_cases hfull : l.buf.length ≥ b
+    · simp only [hfull, decide_true, if_true, Step.state?, Option.some.injEq] at ht
+      subst ht; exact hI
+    · simp only [hfull, decide_false, Bool.false_eq_true, if_false] at ht
+      cases hn : up.next fu s1 with
+      | item a s' =>
+        rw [hn] at ht
+        simp only [Step.state?, Option.some.injEq] at ht
+        subst ht
+        simp; omega
+      | done s' =>
+        rw [hn] at ht
+        simp only [Step.state?, Option.some.injEq] at ht
+        subst ht; exact hI
+      | fuel => rw [hn] at ht; simp [Step.state?] at ht
+      | error e => rw [hn] at ht; simp [Step.state?] at ht
+  | blockRead =>
+    rw [hph] at ht
+    simp only [processBlock] at ht
+    split at ht
+    · simp only [Step.state?, Option.some.injEq] at ht
+      subst ht; exact hI
+    · simp only [Step.state?, Option.some.injEq] at ht
+      subst ht; simp
+  | emitting =>
+    rw [hph] at ht
+    cases hp : l.pending with
+    | nil => rw [hp] at ht; simp only [Step.state?, Option.some.injEq] at ht; subst ht; exact hI
+    | cons x r => rw [hp] at ht; simp only [Step.state?, Option.some.injEq] at ht; subst ht; exact hI
+  | finalEmit =>
+    rw [hph] at ht
+    cases hp : l.pending with
+    | nil => rw [hp] at ht; simp only [Step.state?, Option.some.injEq] at ht; subst ht; exact hI
+    | cons x r => rw [hp] at ht; simp only [Step.state?, Option.some.injEq] at ht; subst ht; exact hI
+  | finished =>
+    rw [hph] at ht
+    simp only [Step.state?, Option.some.injEq] at ht
+    subst ht; exact hI
+
+/-- the number of values `_run_negative_islice` holds in its deque -/
+def NSt.held : NSt α → Nat
+  | .fill _ d => d.length
+  | .filled d => d.length
+  | .lag d => d.length
+  | .drain d => d.length
+  | .drained d => d.length
+  | .emitAll d => d.length
+  | .emitN _ d => d.length
+  | .posLoop _ d => d.length
+  | .emitUpTo _ d => d.length
+  | _ => 0
+
+theorem dqAppendLeft_length_le (m : Nat) (d : List α) (v : α) : (Lena.C17.dqAppendLeft m d v).length ≤ m := by
+  simp [Lena.C17.dqAppendLeft]; omega
+
+theorem dqAppend_length_le (m : Nat) (d : List α) (v : α) : (Lena.C17.dqAppend m d v).length ≤ m := by
+  simp [Lena.C17.dqAppend]; omega
+
+/-- **`negslice_held_bound`** — a `Slice` with a negative index keeps alive only the `|index|` values
+it documents: in every state `_run_negative_islice` can reach, its deque holds at most
+`max |start| |stop|` values (the `maxlen` of the deque of the branch taken) — it never materialises
+the flow. -/
+theorem negslice_held_bound (start stop : Option Int) (up : Gen σ α) (fu : Nat) (s : σ) (t : σ × NSt α)
+    (h : StepReach (negStep start stop up fu) (s, NSt.init) t) :
+    t.2.held ≤ max (negLen start) (negLen stop) := by
+  refine stepReach_invariant _ (fun t => t.2.held ≤ max (negLen start) (negLen stop)) ?_ (by simp [NSt.held]) h
+  rintro ⟨s1, l⟩ t' hI ht
+  simp only at hI
+  cases l with
+  | init =>
+    simp only [negStep] at ht
+    repeat' split at ht
+    all_goals (simp only [Step.state?, Option.some.injEq] at ht; subst ht; simp [NSt.held])
+  | skip i =>
+    simp only [negStep] at ht
+    repeat' split at ht
+    all_goals first
+      | (simp only [Step.state?, Option.some.injEq] at ht; subst ht; simp [NSt.held])
+      | (simp [Step.state?] at ht)
+  | fill i d =>
+    simp only [negStep] at ht
+    repeat' split at ht
+    all_goals first
+      | (simp only [Step.state?, Option.some.injEq] at ht; subst ht; simp only [NSt.held] at hI ⊢
+         first | exact hI | (have := dqAppendLeft_length_le (negLen stop) d ‹α›; omega))
+      | (simp [Step.state?] at ht)
+  | filled d =>
+    simp only [negStep, afterFill] at ht
+    repeat' split at ht
+    all_goals (simp only [Step.state?, Option.some.injEq] at ht; subst ht; simp only [NSt.held] at hI ⊢
+               first | exact hI | omega)
+  | lag d =>
+    simp only [negStep] at ht
+    repeat' split at ht
+    all_goals first
+      | (simp only [Step.state?, Option.some.injEq] at ht; subst ht; simp only [NSt.held] at hI ⊢
+         first | omega | exact Nat.le_trans (dqAppendLeft_length_le _ _ _) (Nat.le_max_right _ _))
+      | (simp [Step.state?] at ht)
+  | drain d =>
+    simp only [negStep] at ht
+    repeat' split at ht
+    all_goals first
+      | (simp only [Step.state?, Option.some.injEq] at ht; subst ht; simp only [NSt.held] at hI ⊢
+         first | exact hI | (have := dqAppend_length_le (negLen start) d ‹α›; omega))
+      | (simp [Step.state?] at ht)
+  | drained d =>
+    simp only [negStep] at ht
+    repeat' split at ht
+    all_goals (simp only [Step.state?, Option.some.injEq] at ht; subst ht; simp only [NSt.held] at hI ⊢; exact hI)
+  | emitAll d =>
+    simp only [negStep] at ht
+    repeat' split at ht
+    all_goals (simp only [Step.state?, Option.some.injEq] at ht; subst ht; simp only [NSt.held, List.length_cons] at hI ⊢
+               omega)
+  | emitN n d =>
+    simp only [negStep] at ht
+    repeat' split at ht
+    all_goals first
+      | (simp only [Step.state?, Option.some.injEq] at ht; subst ht; simp only [NSt.held, List.length_cons] at hI ⊢
+         omega)
+      | (simp [Step.state?] at ht)
+  | posLoop ind d =>
+    simp only [negStep] at ht
+    repeat' split at ht
+    all_goals first
+      | (simp only [Step.state?, Option.some.injEq] at ht; subst ht; simp only [NSt.held] at hI ⊢
+         first | omega | (have := dqAppend_length_le (negLen start) d ‹α›; omega))
+      | (simp [Step.state?] at ht)
+  | emitUpTo n d =>
+    simp only [negStep] at ht
+    repeat' split at ht
+    all_goals (simp only [Step.state?, Option.some.injEq] at ht; subst ht; simp only [NSt.held, List.length_cons] at hI ⊢
+               omega)
+  | finished =>
+    simp only [negStep, Step.state?, Option.some.injEq] at ht
+    subst ht
+    simp [NSt.held]
+
+/-- what `Split.run` yields, block by block: the results of the branches for the next `b` values (or for
+what is left) all carry the clock at which that block was complete, and are followed by what `Split`
+yields from the rest of the input with the branches in the state the block left them in -/
+theorem splitSpecGo_block {σb : Type} (b : Nat) (copyBuf : Bool) (cf fuel c0 : Nat) (xs : List (α × Nat))
+    (act : List (Lena.C03.Branch σb α)) (fwe : Bool) (hb : 1 ≤ b) (hne : xs ≠ []) :
+    splitSpecGo (some b) copyBuf cf (fuel + 1) c0 xs act fwe =
+      (Lena.C03.outputs (Lena.C03.blockLoop copyBuf ((xs.take b).map Prod.fst) (act.length + 1) 0 act []).1).map
+          (fun v => (v, (SF.mk c0 xs cf).need b))
+        ++ splitSpecGo (some b) copyBuf cf fuel ((SF.mk c0 xs cf).need b) (xs.drop b)
+            (Lena.C03.blockLoop copyBuf ((xs.take b).map Prod.fst) (act.length + 1) 0 act []).2 false := by
+  rw [splitSpecGo]
+  have : ¬ ((xs.take (blockAsk (some b) xs)).map Prod.fst).isEmpty = true := by
+    cases xs with
+    | nil => exact absurd rfl hne
+    | cons p r =>
+      obtain ⟨k, rfl⟩ : ∃ k, b = k + 1 := ⟨b - 1, by omega⟩
+      simp [blockAsk]
+  simp only [this, if_false, Bool.false_eq_true]
+  rfl
+
+/-- **`split_block_bound`** — every result of `Split(…, bufsize=b).run` is handed downstream at a clock at
+which a whole number of blocks has been obtained from the input (`i·b` values, or its end has been
+seen): no result waits while the next block is being pulled, and no value of the next block is pulled
+before the results of the previous block have been handed over. -/
+theorem split_block_bound {σb : Type} (b : Nat) (hb : 1 ≤ b) (copyBuf : Bool) (cf : Nat) :
+    ∀ (fuel c0 : Nat) (xs : List (α × Nat)) (act : List (Lena.C03.Branch σb α)) (fwe : Bool),
+      ∀ p ∈ splitSpecGo (some b) copyBuf cf fuel c0 xs act fwe, ∃ i, 1 ≤ i ∧ p.2 = (SF.mk c0 xs cf).need (i * b) := by
+  intro fuel
+  induction fuel with
+  | zero => intro c0 xs act fwe p hp; simp [splitSpecGo] at hp
+  | succ fuel ih =>
+    intro c0 xs act fwe p hp
+    rw [splitSpecGo] at hp
+    have hk : blockAsk (some b) xs = b := rfl
+    by_cases hemp : ((xs.take (blockAsk (some b) xs)).map Prod.fst).isEmpty = true
+    · rw [if_pos hemp] at hp
+      simp only [List.mem_map] at hp
+      obtain ⟨v, _, rfl⟩ := hp
+      exact ⟨1, Nat.le_refl 1, by simp [hk]⟩
+    · rw [if_neg hemp, List.mem_append] at hp
+      rcases hp with hp | hp
+      · simp only [List.mem_map] at hp
+        obtain ⟨v, _, rfl⟩ := hp
+        exact ⟨1, Nat.le_refl 1, by simp [hk]⟩
+      · obtain ⟨i, hi, he⟩ := ih _ _ _ _ p hp
+        refine ⟨i + 1, by omega, ?_⟩
+        rw [he, hk, need_drop]
+        congr 1
+        rw [Nat.add_mul]
+        omega
+
+end buffers
+
+/-! ## the results are those of the list semantics -/
+
+/-- per stage: the values of the stamped flow are the list semantics of the element (`Lena.C17` for
+`Slice`, `Lena.C03` for `Split`) applied to the values of the input -/
+theorem stage_refines_list (st : Stage α) (hwf : st.WF) (sf : SF α) :
+    (st.spec sf).vals.map Prod.fst = st.den (sf.vals.map Prod.fst) := by
+  cases st with
+  | map f => simp [Stage.spec, Stage.den, mapSpec]
+  | filter q =>
+    simp only [Stage.spec, Stage.den, filterSpec]
+    induction sf.vals with
+    | nil => rfl
+    | cons p r ih =>
+      by_cases h : q p.1 = true
+      · simp [List.filter_cons_of_pos, h, ih]
+      · simp [List.filter_cons_of_neg, h, ih]
+  | islice a b st => simp [Stage.spec, Stage.den, isliceSpec, islice_map]
+  | negslice a b st =>
+    obtain ⟨hargs, hst⟩ := hwf
+    have hneg := negSpec_fst a b hargs sf
+    simp only [Stage.spec, Stage.den, negSliceSpec, Lena.C17.sliceRun, hneg]
+    by_cases h1 : st = 1
+    · simp [h1]
+    · simp only [h1, if_false, isliceSpec, islice_map]
+      rw [islice_eq_everyNth _ _ _ _ hst]
+      simp [Lena.C17.takeOpt]
+  | count mark =>
+    simp only [Stage.spec, Stage.den, countSpec]
+    cases sf.vals with
+    | nil => rfl
+    | cons p r => obtain ⟨a, c⟩ := p; simp [countDen, countSpecGo_fst]
+  | runIf sel inner =>
+    simp only [Stage.spec, Stage.den, runIfSpec]
+    induction sf.vals with
+    | nil => rfl
+    | cons p r ih =>
+      simp only [List.flatMap_cons, List.map_append, List.map_cons, ih]
+      congr 1
+      by_cases h : sel p.1 = true
+      · simp [h, Function.comp_def]
+      · simp [h]
+  | split σb brs bufsize copyBuf =>
+    by_cases he : brs.isEmpty = true
+    · simp [Stage.spec, Stage.den, he, mapSpec, Lena.C03.Split.run, emptyRun_eq]
+    · simp only [Stage.spec, Stage.den, if_neg he]
+      exact splitSpec_fst brs bufsize copyBuf he sf
+
+/-- **`lazy_refines_list`** — the values a pipeline yields are exactly the list semantics of the same
+elements on the input: together with `pipeline_lazy` this is what "the shortest prefix that determines
+those k results" means — the first `k` results of the eager semantics are produced from, and only
+from, the prefix pulled so far -/
+theorem lazy_refines_list (els : List (Stage α)) (hwf : ∀ e ∈ els, e.WF) (sf : SF α) :
+    (seqSpec els sf).vals.map Prod.fst = seqDen els (sf.vals.map Prod.fst) := by
+  induction els generalizing sf with
+  | nil => rfl
+  | cons e es ih =>
+    show (seqSpec es (e.spec sf)).vals.map Prod.fst = seqDen es (e.den (sf.vals.map Prod.fst))
+    rw [ih (fun e' he' => hwf e' (by simp [he'])), stage_refines_list e (hwf e (by simp))]
+
+/-- the values received by a consumer that takes `k` results are the first `k` results of the list
+semantics on the whole input -/
+theorem pipeline_values (els : List (Stage α)) (hwf : ∀ e ∈ els, e.WF) (xs : List α) (fu : Nat)
+    (hfu : seqFuelOK els (SF.ofList xs) fu) (k : Nat) :
+    (((seqRun els (Pipe.ofList xs)).take fu k).1).map Prod.fst = (seqDen els xs).take k := by
+  rw [pipeline_lazy els hwf xs fu hfu k]
+  simp only [List.map_take]
+  rw [lazy_refines_list els hwf]
+  simp [SF.ofList, stamps_map_fst]
+
 end Lena.C02
